@@ -150,7 +150,7 @@ func runC09(c *Ctx) {
 	mon.DiscardStdLog()
 	nops := c.Pick(20000, 400000)
 	var mu sync.Mutex
-	var evals, steps, cut, full64k, overlapN, wrapN int64
+	var evals, steps, cut, full64k, overlapN, wrapN, nilION, recycledN int64
 	distinct := mon.NewDistinct(2_000_000)
 	opsList := []uint8{0xa0, 0xa1, 0xa2, 0xa3, 0xa8, 0xa9, 0xaa, 0xab, 0xb0, 0xb1, 0xb2, 0xb3, 0xb8, 0xb9, 0xba, 0xbb}
 	opName := map[uint8]string{0xa0: "LDI", 0xa1: "CPI", 0xa2: "INI", 0xa3: "OUTI", 0xa8: "LDD", 0xa9: "CPD", 0xaa: "IND", 0xab: "OUTD",
@@ -245,6 +245,10 @@ func runC09(c *Ctx) {
 		ioSeed := r.U64()
 		eio := &mon.IO{Seed: ioSeed}
 		sio := &mon.IO{Seed: ioSeed}
+		// no device attached (CPU.IO == nil): inputs read 0, outputs vanish, and the
+		// operation counts, moves and repeats exactly as with a device
+		nilIO := kind >= 2 && ci%3 == 0
+		sio.Null = nilIO
 
 		// --- specification
 		sp := &blockSpec{A: pre.AF.Hi, F: pre.AF.Lo, B: pre.BC.Hi, C: pre.BC.Lo, D: pre.DE.Hi, E: pre.DE.Lo, H: pre.HL.Hi, L: pre.HL.Lo}
@@ -253,6 +257,30 @@ func runC09(c *Ctx) {
 		// --- emulator, Step by Step
 		emu.Logging = true
 		cpu := z80.CPU{States: pre, Memory: emu, IO: eio}
+		if nilIO {
+			cpu.IO = nil
+		}
+		recycled := ci%5 == 0
+		if recycled {
+			// a recycled CPU object: it has executed every block instruction once on
+			// ANOTHER memory and device before; then memory, device and States are assigned
+			warm := &mon.Mem{}
+			warm.Fill(fillSeed ^ 0x5a5a)
+			cpu = z80.CPU{Memory: warm, IO: &mon.IO{Seed: ioSeed ^ 1}}
+			for _, wop := range opsList {
+				cpu.States = z80.States{}
+				cpu.PC, cpu.SP = 0x0100, 0x8000
+				cpu.BC.SetU16(0x0302)
+				cpu.HL.SetU16(0x4000)
+				cpu.DE.SetU16(0x5000)
+				warm.Place(0x0100, 0xed, wop)
+				cpu.Step()
+			}
+			cpu.Memory, cpu.IO, cpu.States, cpu.HALT = emu, eio, pre, false
+			if nilIO {
+				cpu.IO = nil
+			}
+		}
 		nsteps := 0
 		bad := ""
 		var pan interface{}
@@ -291,6 +319,9 @@ func runC09(c *Ctx) {
 				case 3:
 					wantWr, wantIO = 0, 1
 				}
+				if nilIO {
+					wantIO = 0
+				}
 				if bad == "" && (rd != wantRd || wr != wantWr || pio != wantIO) {
 					bad = fmt.Sprintf("a Step performed %d data reads, %d writes, %d port accesses (one element = %d/%d/%d)", rd, wr, pio, wantRd, wantWr, wantIO)
 				}
@@ -320,6 +351,12 @@ func runC09(c *Ctx) {
 		}
 		if ovl {
 			overlapN++
+		}
+		if nilIO {
+			nilION++
+		}
+		if recycled {
+			recycledN++
 		}
 		if hl > 0xfff0 || hl < 8 {
 			wrapN++
@@ -394,7 +431,7 @@ func runC09(c *Ctx) {
 			c.R.Violation(fmt.Sprintf("C09/%s/%s", opName[op], sig), map[string]interface{}{
 				"instruction": opName[op], "what": bad, "pre": DumpState(&pre, false), "post": DumpState(&cpu.States, cpu.HALT),
 				"spec":       map[string]string{"A": h8(sp.A), "F": h8(sp.F), "BC": h16(sp.bc()), "DE": h16(sp.de()), "HL": h16(sp.hl()), "f_mask": h8(sp.FMask), "alt_F": h8(sp.AltF)},
-				"spec_steps": sp.Steps, "emu_steps": nsteps, "spec_finished": sp.Finished, "mem_seed": fillSeed, "cp_mode": cpMode, "io_seed": ioSeed,
+				"spec_steps": sp.Steps, "emu_steps": nsteps, "spec_finished": sp.Finished, "mem_seed": fillSeed, "cp_mode": cpMode, "io_seed": ioSeed, "no_io_device": nilIO, "recycled_cpu_object": recycled,
 				"emu_ports_head": DumpAccesses(pl), "spec_ports_head": DumpAccesses(sl)})
 		}
 		if ci < 6 {
@@ -543,9 +580,11 @@ func runC09(c *Ctx) {
 	c.R.Set("steps", steps)
 	c.R.Set("operations_cut_by_self_overwrite", cut)
 	c.R.Set("operations_of_65536_steps", full64k)
+	c.R.Set("operations_without_io_device", nilION)
+	c.R.Set("operations_on_a_recycled_cpu_object", recycledN)
 	c.R.Set("overlapping_copy_cases", overlapN)
 	c.R.Set("pointer_wrap_cases", wrapN)
 	c.R.Set("exhaustive", false)
-	c.R.Set("rule", "each of the 16 block instructions from boundary-biased states: counts BC/B in {0,1,2,255,256,65535} or random, HL/DE anywhere incl. overlap distance -3..+3, ranges running into the instruction itself, wrap at FFFF/0000; for CP forms A absent from the scanned range, present at random, or exactly where the count runs out; random memory and device bytes. The emulator is Stepped until PC leaves the instruction (or its bytes are overwritten); per Step exactly one element (bus log) and PC on/after the instruction; at the end registers, documented flags (block-I/O flags documented-or-silicon; bits 3/5 not compared for a cut-off repeat), memory image, port log and number of Steps are compared with a direct loop specification. A second phase runs whole operations on a sparse z80.MapMemory (unwritten cells read C7) and a short z80.DumbMemory handed to the CPU directly, against the same specification on a model of that memory. Distinct = distinct (instruction, count, HL, DE, PC); every operation transfers or compares at least one element")
+	c.R.Set("rule", "each of the 16 block instructions from boundary-biased states: counts BC/B in {0,1,2,255,256,65535} or random, HL/DE anywhere incl. overlap distance -3..+3, ranges running into the instruction itself, wrap at FFFF/0000; for CP forms A absent from the scanned range, present at random, or exactly where the count runs out; random memory and device bytes; a third of the I/O forms run with no device attached (CPU.IO nil: reads 0, writes vanish, counting unchanged); every fifth operation runs on a recycled CPU object that has executed all 16 block instructions on another memory and device before. The emulator is Stepped until PC leaves the instruction (or its bytes are overwritten); per Step exactly one element (bus log) and PC on/after the instruction; at the end registers, documented flags (block-I/O flags documented-or-silicon; bits 3/5 not compared for a cut-off repeat), memory image, port log and number of Steps are compared with a direct loop specification. A second phase runs whole operations on a sparse z80.MapMemory (unwritten cells read C7) and a short z80.DumbMemory handed to the CPU directly, against the same specification on a model of that memory. Distinct = distinct (instruction, count, HL, DE, PC); every operation transfers or compares at least one element")
 	c.R.Assume("if an element overwrites the instruction's own bytes the specification stops there too (hardware would fetch the new bytes)")
 }
